@@ -32,6 +32,18 @@ func C16(o *world.Obs) *Result {
 			}
 		}
 	}
+	// an asynchronous log handler resolves what the cache handed it only later: by then the
+	// responses belong to their callers, so nothing it resolves may come from their header maps
+	if o.Deferred != "" {
+		r.Label("deferred-log-handler")
+		for _, marker := range []string{"caller-owned", "scribbled", "PANIC while resolving"} {
+			if i := strings.Index(o.Deferred, marker); i >= 0 {
+				from := max(0, i-160)
+				r.Fail("C16", "log-reads-returned-response", -1, "a log record resolved after the round trips shows what the caller wrote into its response afterwards (%q): ...%s", marker, o.Deferred[from:min(len(o.Deferred), i+80)])
+				break
+			}
+		}
+	}
 	bgSeen := false
 	for _, c := range o.Calls {
 		if !c.Fg && c.Ex >= 0 {
